@@ -411,6 +411,9 @@ func c06ContextScenario() *hist.Scenario {
 			`{{define "ph"}}<p>{{.S | html}}</p>{{end}}{{define "pq"}}<p>{{.S}}</p>{{end}}` +
 			// a callee that only extends the static URL prefix, used by two call sites
 			`{{define "T"}}?q={{end}}{{define "A"}}<a href="/p{{template "T"}}{{.S}}">a</a>{{end}}{{define "B"}}<a href="/p{{template "T"}}{{.S}}">b</a>{{end}}` +
+			// one helper inside script elements of different types; helpers that complete a rel value
+			`{{define "vx"}}var x = 1;{{end}}{{define "sa"}}<script type="text/a">{{if .S}}{{template "vx"}}{{end}}</script>{{end}}{{define "sb"}}<script type="text/b">{{if .S}}{{template "vx"}}{{end}}</script>{{end}}` +
+			`{{define "on"}}on{{end}}{{define "la"}}<link rel="ic{{template "on"}}" href="{{.S}}">{{end}}{{define "lb"}}<link rel="stylesheet c{{template "on"}}" href="{{.S}}">{{end}}` +
 			// fails at run time after part of the output was produced
 			`{{define "rtf"}}<em>partial</em><script>{{.S}}</script>{{end}}` +
 			`R{{template "top" .}}`,
@@ -427,12 +430,19 @@ func c06ContextScenario() *hist.Scenario {
 	}
 }
 
-func c06ContextAlphabet() []hist.Op {
+// c06ContextAlphabet: part 1 = callees whose analysis depends on the calling context, part 2 = state of the escaper and
+// of the sanitizers between executions. The two halves are explored as separate scenarios over the same definitions
+// (30 calls to depth 4 do not fit the quick budget; the halves do).
+func c06ContextAlphabet(part int) []hist.Op {
 	var ops []hist.Op
-	for _, name := range []string{"qa", "js", "tx", "h", "plain", "cond", "top", "svg", "rh", "ra", "rt"} {
-		ops = append(ops, hist.Op{Kind: hist.Exec, H: 0, Form: 2, Name: name, Arg: 0})
+	if part == 1 {
+		for _, name := range []string{"qa", "js", "tx", "h", "plain", "cond", "top", "svg", "rh", "ra", "rt", "sa", "sb", "la", "lb"} {
+			ops = append(ops, hist.Op{Kind: hist.Exec, H: 0, Form: 2, Name: name, Arg: 0})
+		}
+		ops = append(ops, hist.Op{Kind: hist.Exec, H: 0, Form: 0, Arg: 0}, hist.Op{Kind: hist.Exec, H: 0, Form: 2, Name: "ra", Arg: 1})
+		return ops
 	}
-	ops = append(ops, hist.Op{Kind: hist.Exec, H: 0, Form: 0, Arg: 0}, hist.Op{Kind: hist.Exec, H: 0, Form: 2, Name: "ra", Arg: 1})
+	ops = append(ops, hist.Op{Kind: hist.Exec, H: 0, Form: 2, Name: "h", Arg: 0}, hist.Op{Kind: hist.Exec, H: 0, Form: 2, Name: "top", Arg: 0})
 	for _, name := range []string{"ph", "pq", "text2"} {
 		if name != "text2" {
 			ops = append(ops, hist.Op{Kind: hist.Exec, H: 0, Form: 2, Name: name, Arg: 2})
@@ -610,6 +620,9 @@ func buildHistScenarios() {
 	for _, sc := range []*hist.Scenario{c06Scenario(), c06ContextScenario(), c07Scenario(), c08Scenario()} {
 		histScenarios[sc.Name] = sc
 	}
+	ctx2 := c06ContextScenario()
+	ctx2.Name = "escaper-state-between-executions"
+	histScenarios[ctx2.Name] = ctx2
 	stale := c07Scenario()
 	stale.Name = "stale-handles"
 	histScenarios[stale.Name] = stale
@@ -696,14 +709,20 @@ func checkC06(r *core.Run) {
 	if r.Thorough() {
 		depth = 5 // two scenarios with 20 and 22 calls: depth 6 does not finish within the thorough budget
 	}
-	histRun(r, c06Clauses, []*hist.Scenario{c06Scenario(), c06ContextScenario()}, func(sc *hist.Scenario) []hist.Op {
-		if sc.Name == "context-dependent-callee" {
-			return c06ContextAlphabet()
+	ctx2 := c06ContextScenario()
+	ctx2.Name = "escaper-state-between-executions"
+	histRun(r, c06Clauses, []*hist.Scenario{c06Scenario(), c06ContextScenario(), ctx2}, func(sc *hist.Scenario) []hist.Op {
+		switch sc.Name {
+		case "context-dependent-callee":
+			return c06ContextAlphabet(1)
+		case "escaper-state-between-executions":
+			return c06ContextAlphabet(2)
 		}
 		return c06Alphabet()
 	}, depth, false)
 	histProcessFresh(r, c06Scenario(), c06Alphabet())
-	histProcessFresh(r, c06ContextScenario(), c06ContextAlphabet())
+	histProcessFresh(r, c06ContextScenario(), c06ContextAlphabet(1))
+	histProcessFresh(r, ctx2, c06ContextAlphabet(2))
 	r.Sample(map[string]string{"scenario": "shared-helper", "history": renderOps(c06Alphabet()[2:5])})
 	r.Assume("expected value of every call = the same call on a freshly built set (no hand-written expectations)")
 }
